@@ -2747,13 +2747,19 @@ type vsIB interface{ ib() }
 func (*vsA) ia() {}
 func (*vsA) ib() {}
 
-func (r *vpRun) siblingRemoved(rng *rand.Rand) {
+func (r *vpRun) siblingRemoved(rng *rand.Rand, idx int) {
+	// the shape is enumerated (index of the invocation), every pair of lifetimes is run each time
+	aliases, removeFirst, regDep := idx%2 == 0, (idx/2)%2 == 0, (idx/4)%4 != 0
+	for _, lifeDep := range []Lifetime{Singleton, Scoped, Transient} {
+		for _, lifeM := range []Lifetime{Singleton, Scoped, Transient} {
+			r.siblingRemovedOne(rng, lifeDep, lifeM, regDep, aliases, removeFirst)
+			r.emit("p verdict", "ok") // drains the monitor failures of this world
+		}
+	}
+}
+
+func (r *vpRun) siblingRemovedOne(rng *rand.Rand, lifeDep, lifeM Lifetime, regDep, aliases, removeFirst bool) {
 	w := r.newWorld(rng)
-	lifes := []Lifetime{Singleton, Scoped, Transient}
-	lifeDep, lifeM := lifes[rng.Intn(3)], lifes[rng.Intn(3)]
-	regDep := rng.Intn(4) != 0
-	aliases := rng.Intn(2) == 0
-	removeFirst := rng.Intn(3) != 0
 	c := w.coll
 	var err error
 	if regDep {
@@ -2768,7 +2774,6 @@ func (r *vpRun) siblingRemoved(rng *rand.Rand) {
 	}
 	if err != nil {
 		w.fail("C17", "sibling-removed scenario: a valid registration was rejected: %v", err)
-		r.emit("p verdict", "ok")
 		return
 	}
 	switch {
@@ -2791,7 +2796,6 @@ func (r *vpRun) siblingRemoved(rng *rand.Rand) {
 	r.stats["sibling_removed"]++
 	var prov Provider
 	if guard(w, "Build", func() { prov, err = c.Build() }) {
-		r.emit("p verdict", "ok")
 		return
 	}
 	got := "ok"
@@ -2830,7 +2834,6 @@ func (r *vpRun) siblingRemoved(rng *rand.Rand) {
 		}
 		prov.Close()
 	}
-	r.emit("p verdict", "ok")
 }
 
 // oddShapes: dependency shapes the generic generator cannot build with reflect.StructOf / MakeFunc — a
@@ -2993,7 +2996,7 @@ func TestVerifCore(t *testing.T) {
 			continue
 		}
 		if it%50 == 47 {
-			r.siblingRemoved(rng)
+			r.siblingRemoved(rng, it/50+int(seed))
 			continue
 		}
 		r.scenario(rng, o)
